@@ -56,6 +56,18 @@ Theorem C12_terms_copied_per_image : forall a c r R, a_cell a = Some c -> WF a -
 Proof. exact replicate_terms. Qed.
 Print Assumptions C12_terms_copied_per_image.
 
+(* consequently no term of the replicated structure joins atoms of two different images: each of its tuples is an original tuple moved
+   into exactly one image i < M (every index has quotient i by N, and the remainders by N spell an original tuple), every original
+   tuple appears in every image, and each kind has exactly M times as many terms as before *)
+Theorem C12_terms_within_one_image : forall a c r R, a_cell a = Some c -> WF a ->
+  nonempty_tuples (bonds a) -> nonempty_tuples (angles a) -> nonempty_tuples (dihedrals a) -> nonempty_tuples (impropers a) ->
+  replicate a r = Some R ->
+  let M := length (all_mults r) in let n := natoms a in
+  per_image n M (bonds a) (bonds R) /\ per_image n M (angles a) (angles R) /\
+  per_image n M (dihedrals a) (dihedrals R) /\ per_image n M (impropers a) (impropers R).
+Proof. exact replicate_terms_within_images. Qed.
+Print Assumptions C12_terms_within_one_image.
+
 (* before fix D3 the cell was scaled column-wise; the row-wise model differs from it on a tilted cell with unequal factors *)
 Example C12_column_scaling_is_wrong :
   let c := ((10, 0, 0), (2, 9, 0), (1, 3, 8))%Z in
